@@ -652,7 +652,7 @@ def non_interactions(graph, t=None):
     nodes = set(graph)
     while nodes:
         u = nodes.pop()
-        for v in nodes - set(graph[u]):
+        for v in nodes - set(graph.neighbors(u, t=t)):
             yield u, v
 
 
